@@ -104,6 +104,8 @@ def case_to_sexp(c):
              ["coupons", frame(c.get("coupons"))], ["cost_long", frame(c.get("cost_long"))],
              ["cost_short", frame(c.get("cost_short"))], ["tree", c["tree"]], ["ops", c["ops"]],
              ["dump", c.get("dump", "all")]]
+    if c.get("digest"):
+        items.append(["digest", True])
     return sx(items)
 
 
